@@ -115,6 +115,19 @@ static int mem_same_address(int has_base, int has_index, int scale) {
   return 1;
 }
 
+/* carve-outs of open known findings: with the finding open, the class is restricted to the immediates the defect does
+ * not touch (those that fit a sign-extended imm8), so every neighbouring case is still proved */
+#ifdef KF_C03_MEMWORD_IMM
+#define KF_C03_MEMWORD_IMM_CARVE ASSUME(FITS_S(V_IMM, 8));
+#else
+#define KF_C03_MEMWORD_IMM_CARVE
+#endif
+#ifdef KF_C03_NOBASE_IMM
+#define KF_C03_NOBASE_IMM_CARVE ASSUME(FITS_S(V_IMM, 8));
+#else
+#define KF_C03_NOBASE_IMM_CARVE
+#endif
+
 void h_E(void) {
   int k;
   GHOST_IN(unsigned, g_opt); ASSUME(g_opt < 16 && (g_opt & 3) != 3);   /* the 12 reachable option combinations (C12) */
